@@ -237,7 +237,7 @@ func (ut UnitType) autoScale(value float64) (float64, string, bool) {
 	var f float64
 	var unit string
 	for _, u := range ut.Units {
-		if u.Factor >= f && (value/u.Factor) >= 1.0 {
+		if u.Factor >= f && math.Abs(value/u.Factor) >= 1.0 {
 			f = u.Factor
 			unit = u.CanonicalName
 		}
